@@ -211,6 +211,32 @@ theorem config_astar_route_least_cost (c : Config α) (h : c.EdgeLocal) (hwf : 0
         (route.map (fun b => b.access + b.traversal)).sum ≤ cost c.costOf es :=
   _root_.Compass.config_astar_route_least_cost c h hwf hts hadm hrun
 
+/-- **through the edge-oriented wrapper** (`run_edge_oriented`, origin and destination edges not
+adjacent): the returned route's summed cost is the least cost of a valid walk from the origin edge's
+head to the destination edge's tail -/
+theorem config_edge_oriented_route_least_cost (c : Config α) (h : c.EdgeLocal) (hwf : 0 ≤ c.wfOf)
+    (source tgt : Nat) (sched : List Nat) (r : AlgResult α)
+    (e1 e2 : EdgeRec α) (h1 : c.edges[source]? = some e1) (h2 : c.edges[tgt]? = some e2)
+    (hne : source ≠ tgt) (hnadj : e1.dst ≠ e2.src)
+    (hadm : Admissible c.inst c.okOf c.costOf c.hOf e2.src)
+    (hrun : c.runEdge source (some tgt) sched = .ok r) :
+    ∃ (route inner : List (Branch α)) (last : Branch α), r.routes = [route] ∧
+      route = SearchRoute.originBranch c source e1 :: inner
+        ++ [SearchRoute.destBranch tgt e2 last.state] ∧
+      Walk c.inst c.okOf e1.dst (inner.map (·.edge)) e2.src ∧
+      (route.map (fun b => b.access + b.traversal)).sum = cost c.costOf (inner.map (·.edge)) ∧
+      ∀ es, Walk c.inst c.okOf e1.dst es e2.src →
+        (route.map (fun b => b.access + b.traversal)).sum ≤ cost c.costOf es :=
+  _root_.Compass.config_edge_oriented_route_least_cost c h hwf source tgt sched r e1 e2 h1 h2 hne
+    hnadj hadm hrun
+
+/-! ### Non-vacuity of the generalisation itself: `Example.exInstS` prices malformed states wrongly, so
+it is outside `UniformCost`, and inside `UniformOn` with the invariant "the state has one slot" -/
+
+example : ¬ UniformCost Example.exInstS Example.exOk Example.exCost := Example.ex_not_uniformCost
+example : UniformOn Example.exInstS (fun _ st => st.length = 1) Example.exOk Example.exCost
+    Example.exH := Example.ex_uniform_on
+
 /-! ### Non-vacuity on concrete configurations (`ConfigUniform.Example`): an offset rate, an edge
 surcharge, a unit conversion, a forbidden shortcut, a cycle and self loops; the speed-table model;
 A* with a non-zero admissible estimate; a reverse search. -/
@@ -266,6 +292,35 @@ example : ∃ r route, exR.runVertex 3 (some 0) [3, 2, 1, 0] = .ok r ∧ r.route
   obtain ⟨route, h1, _, _, _, h5⟩ :=
     config_dijkstra_route_least_cost exR exR_edgeLocal rfl (by decide) hr
   exact ⟨r, route, hr, h1, h5⟩
+
+/-- the edge-oriented wrapper on `exC`: origin edge 0 (0→1), destination edge 4 (3→1); the inner
+route is `[7]` -/
+example : ∃ r route, exC.runEdge 0 (some 4) [1, 2, 3] = .ok r ∧ r.routes = [route] ∧
+    route.map (·.edge) = [0, 7, 4] ∧
+    ∀ es, Walk exC.inst exC.okOf 1 es 3 →
+      (route.map (fun b => b.access + b.traversal)).sum ≤ cost exC.costOf es := by
+  have hobs : routeEdgesOf (exC.runEdge 0 (some 4) [1, 2, 3]) = some [[0, 7, 4]] := by
+    decide +kernel
+  obtain ⟨r, hr⟩ := ok_of_routeEdgesOf hobs
+  obtain ⟨route, inner, last, h1, _, _, _, h5⟩ :=
+    config_edge_oriented_route_least_cost exC exC_edgeLocal (by simp [Config.wfOf, exC]) 0 4
+      [1, 2, 3] r ⟨0, 1, 1000⟩ ⟨3, 1, 700⟩ rfl rfl (by decide) (by decide)
+      (exC.admissible_dijkstra rfl 3) hr
+  refine ⟨r, route, hr, h1, ?_, h5⟩
+  rw [hr] at hobs
+  simpa [routeEdgesOf, h1] using hobs
+
+/-- why the property excludes offset rates *for A\**: with an offset the estimate at the destination
+itself is positive (`exC` with weight factor one: `hOf 3 = 2`), so it is not admissible.  Dijkstra
+(weight factor 0, the examples above) is not affected: the cost of an edge is still a function of the
+edge alone. -/
+example : ¬ Admissible ({ exC with wf := none } : Config ℚ).inst ({ exC with wf := none } : Config ℚ).okOf
+    ({ exC with wf := none } : Config ℚ).costOf ({ exC with wf := none } : Config ℚ).hOf 3 := by
+  intro h
+  have h3 := h 3 [] rfl
+  revert h3
+  simp only [cost]
+  decide +kernel
 
 end
 
